@@ -18,6 +18,10 @@ type Gen struct {
 	Res   [][]TxRes
 	cur   int
 	Trace func(g *Gen)
+	// OnBlock is called after the commit of every block (index, hook results, step results).
+	OnBlock  func(idx int, begin, end BlockRes, txs []TxRes)
+	curBegin BlockRes
+	finished bool
 }
 
 func NewGen(seed int64) *Gen {
@@ -42,15 +46,33 @@ func (g *Gen) next(dt int64) {
 	if g.Trace != nil {
 		g.Trace(g)
 	}
-	if br := g.C.EndCommit(); br.Panic {
-		panic("generator: EndBlock/Commit panicked: " + br.Err)
-	}
-	if br := g.C.Begin(time.Duration(dt) * time.Second); br.Panic {
+	g.closeBlock()
+	br := g.C.Begin(time.Duration(dt) * time.Second)
+	if br.Panic {
 		panic("generator: BeginBlock panicked: " + br.Err)
 	}
+	g.curBegin = br
 	g.W.Blocks = append(g.W.Blocks, Block{Dt: dt})
 	g.Res = append(g.Res, nil)
 	g.cur++
+}
+
+func (g *Gen) closeBlock() {
+	br := g.C.EndCommit()
+	if br.Panic {
+		panic("generator: EndBlock/Commit panicked: " + br.Err)
+	}
+	if g.OnBlock != nil {
+		g.OnBlock(g.cur, g.curBegin, br, g.Res[g.cur])
+	}
+}
+
+// Finish commits the last open block.
+func (g *Gen) Finish() {
+	if !g.finished {
+		g.closeBlock()
+		g.finished = true
+	}
 }
 
 func (g *Gen) ctx() sdk.Context { return g.C.Ctx }
